@@ -50,7 +50,9 @@ func FetchRecord(ctx context.Context, r Resolver, fromDomain string) (policyDoma
 	}
 	if len(txts) == 0 {
 		// No records or 'no such host', try orgDomain.
-		orgDomain, err := publicsuffix.EffectiveTLDPlusOne(fromDomain)
+		// publicsuffix matches its rules against the literal string, the
+		// domain from the header may use any case.
+		orgDomain, err := publicsuffix.EffectiveTLDPlusOne(strings.ToLower(fromDomain))
 		if err != nil {
 			return "", nil, err
 		}
